@@ -357,6 +357,19 @@ func genNearMiss(emit func(Case) bool) {
 				}
 			}
 		}
+		// arithmetic on two literals (a transpiler may compute it itself): every operator x boundary operands
+		for _, a := range []string{"0", "1", "7", "-1", "9223372036854775807"} {
+			for _, b := range []string{"0", "1", "-1", "2", "9223372036854775807"} {
+				for _, op := range []string{"+", "-", "*", "/", "%"} {
+					for si, shape := range []string{"x := A OP B\nprint(x)", "print(A OP B)", "s := \"abc\"\nprint(s[A OP B])", "ok := false\nif ok {\n\tprint(A OP B)\n}\nprint(\"alive\")", "func f() int {\n\treturn A OP B\n}\nprint(f())"} {
+						src := strings.NewReplacer("A", a, "OP", op, "B", b).Replace(shape)
+						if !emit(Case{Space: "N", Label: fmt.Sprintf("literal-arithmetic %s %s %s shape#%d", a, op, b, si), W: WCase{Files: []WFile{{Name: "main.tsh", Data: []byte(src + "\n")}}, Main: "main.tsh", Target: target}}) {
+							return
+						}
+					}
+				}
+			}
+		}
 		for ci, c := range nmConstructs {
 			toks, _ := Split(c)
 			for pos := range toks {
@@ -550,6 +563,11 @@ func specialImportCases() []special {
 		{"import-nested-directory", []WFile{f("main.tsh", "import a \"a.tsh\"\n"), f("a.tsh", "import b \"d\"\n"), {Name: "d", Kind: KDir}}, "main.tsh"},
 		{"import-subdir-relative", []WFile{f("main.tsh", "import a \"sub/a.tsh\"\na.A()\n"), f("sub/a.tsh", "import b \"b.tsh\"\nfunc A() {\n\tb.B()\n}\n"), f("sub/b.tsh", "func B() {\n}\n")}, "main.tsh"},
 		{"import-std", []WFile{f("main.tsh", "import \"strings\"\nprint(strings.Contains(\"ab\", \"a\"))\n")}, "main.tsh"},
+		// modules found next to the executable (see workerBinary): a chain, one importing itself, two importing each other
+		{"import-std-chain", []WFile{f("main.tsh", "import \"chain1\"\nprint(chain1.F())\n")}, "main.tsh"},
+		{"import-std-module-importing-itself", []WFile{f("main.tsh", "import \"selfie\"\nselfie.S()\n")}, "main.tsh"},
+		{"import-std-modules-importing-each-other", []WFile{f("main.tsh", "import \"cyca\"\ncyca.A()\n")}, "main.tsh"},
+		{"import-std-cycle-reached-from-a-local-file", []WFile{f("main.tsh", "import a \"a.tsh\"\na.A()\n"), f("a.tsh", "import \"cycb\"\nfunc A() {\n\tcycb.B()\n}\n")}, "main.tsh"},
 		{"import-std-with-extension", []WFile{f("main.tsh", "import \"strings.tsh\"\n")}, "main.tsh"},
 		{"import-std-shadowed-by-directory", []WFile{f("main.tsh", "import \"strings\"\n"), {Name: "strings", Kind: KDir}}, "main.tsh"},
 		{"import-std-missing-name", []WFile{f("main.tsh", "import \"nosuchlib\"\n")}, "main.tsh"},
